@@ -36,7 +36,7 @@ LEVEL_NOTE = ("Trusted: Coq kernel + vm_compute; the hand model (tied by exhaust
 
 SYM = ["a", " b", "", "  ", "!c", "banner motd ^", "banner motd ^ x ^", "^", " ^", "macro name m", "@", "banner login #", "#", "  c"]
 SYNS = ["ios", "nxos", "iosxr", "asa"]
-DELIMS = [["!"], ["#"], ["!", "#"]]
+DELIMS = [["!"], ["#"], ["!", "#"], []]
 
 
 def gen(rng, tier, escalate):
